@@ -5,6 +5,7 @@ import (
 	"compress/gzip"
 	"encoding/hex"
 	"fmt"
+	"io"
 	"net/http"
 	"strings"
 
@@ -167,7 +168,12 @@ func init() {
 				}
 			}
 			for i := 0; i < n; i++ {
-				emit(hex.EncodeToString(c20Body(g, tier)) + "\t" + b01(g.Chance(1, 3)) + "\t" + b01(g.Chance(1, 3)))
+				l := hex.EncodeToString(c20Body(g, tier)) + "\t" + b01(g.Chance(1, 3)) + "\t" + b01(g.Chance(1, 3))
+				if g.Chance(1, 4) {
+					// a second response is filtered before the first one's body is read
+					l += "\t" + hex.EncodeToString(c20Body(g, tier))
+				}
+				emit(l)
 			}
 		},
 		Run: func(line string, st *Stats) (string, string, bool) {
@@ -189,11 +195,40 @@ func init() {
 				h.Set("Content-Security-Policy", "default-src 'self'")
 			}
 			h.Set("Content-Type", "text/html")
-			out, cl, oh, tag, err := proxy.VerifFilterHTML(wire, h, "example.org", "injections.adguard.com")
-			if err != nil {
-				return "E", line + "\t" + hx(tag), true
-			}
+			mline := strings.Join(f[:3], "\t")
+			var out []byte
+			var cl int64
+			var oh http.Header
+			var tag string
+			var err error
 			flags := ""
+			if len(f) > 3 {
+				// overlapping sessions: filter A, filter B, and only then read A's body, then B's
+				bodyB, _ := hex.DecodeString(f[3])
+				var resA, resB *http.Response
+				resA, tag, err = proxy.VerifFilterHTMLUnread(wire, h, "example.org", "injections.adguard.com")
+				if err != nil {
+					return "E", mline + "\t" + hx(tag), true
+				}
+				hb := http.Header{}
+				hb.Set("Content-Type", "text/html")
+				var tagB string
+				resB, tagB, err = proxy.VerifFilterHTMLUnread(bodyB, hb, "example.org", "injections.adguard.com")
+				out, _ = io.ReadAll(resA.Body)
+				cl, oh = resA.ContentLength, resA.Header
+				if err == nil {
+					outB, _ := io.ReadAll(resB.Body)
+					if !bytes.Equal(outB, c20Ref(bodyB, tagB)) || resB.ContentLength != int64(len(outB)) {
+						flags += "!SECOND-RESPONSE-DIFFERS-FROM-REFERENCE"
+					}
+				}
+				st.Inc("overlapping_pairs")
+			} else {
+				out, cl, oh, tag, err = proxy.VerifFilterHTML(wire, h, "example.org", "injections.adguard.com")
+				if err != nil {
+					return "E", mline + "\t" + hx(tag), true
+				}
+			}
 			ref := c20Ref(body, tag)
 			if !bytes.Equal(out, ref) {
 				flags += "!OUTPUT-DIFFERS-FROM-REFERENCE"
@@ -219,7 +254,7 @@ func init() {
 			if len(body) > 16384 {
 				st.Inc("bodies_longer_than_window")
 			}
-			return hex.EncodeToString(out) + flags, line + "\t" + hx(tag), injected
+			return hex.EncodeToString(out) + flags, mline + "\t" + hx(tag), injected
 		},
 	})
 }
